@@ -13,6 +13,7 @@ from sim import toolkit
 from sim import refcodec as rc
 from engines.um_model import Monitor, KNOWN_VERBS, P_NS, HYPER
 from engines import um_race
+from engines import um_race2
 from engines import um_trxcon
 
 FREQ_POOLS = [
@@ -881,6 +882,12 @@ class UmEngine:
 			plan = um_race.build_race_plan(rng_for(seed, "plan"), tier)
 			plan["seed"] = seed
 			return plan
+		r2 = {"C02": 0.3, "C10": 0.3, "C18": 0.3, "C05": 0.15, "C12": 0.08}.get(prop, 0.0)
+		if r2 and share + tshare <= pr < share + tshare + r2:
+			# what the recipients see while a command or an arrival races a tick (um_race2.py)
+			plan = um_race2.build_race2_plan(rng_for(seed, "plan"), tier, prop)
+			plan["seed"] = seed
+			return plan
 		g = Gen(seed, prop, tier)
 		plan = g.build()
 		plan["seed"] = seed
@@ -987,7 +994,8 @@ class UmEngine:
 						by_loc.setdefault(loc, []).append(key)
 					# lines of the modules that hold the state shared by the two threads weigh more
 					locs = sorted(by_loc)
-					wts = [3 if l.startswith(("transceiver.py", "burst_fwd.py")) else 1 for l in locs]
+					heavy = ("transceiver.py", "burst_fwd.py", "fake_trx.py") if plan["config"].get("race2") else ("transceiver.py", "burst_fwd.py")
+					wts = [(6 if plan["config"].get("race2") else 3) if l.startswith(heavy) else 1 for l in locs]
 					loc = srng.choices(locs, wts)[0]
 					pre.append(srng.choice(by_loc[loc]))
 			elif strat in ("pct2", "pct3"):
@@ -1010,11 +1018,21 @@ class UmEngine:
 			res.digest = digest_of(res.violations)
 			return res
 		viols, stats = um_race.check_race(sim.history, plan["config"])
+		if plan["config"].get("race2"):
+			# the senders re-tune in this profile, so the burst-centric oracle's sniffers do not see
+			# every emission: only its sniffer-independent clauses are kept
+			viols = [v for v in viols if v["clause"] in ("C03.thread-death", "C05.race-no-response", "C03.malformed-datagram")]
+			v2, st2 = um_race2.check_race2(sim.history, plan["config"])
+			viols = viols + v2
+			stats.update(st2)
 		if stuck:
 			viols.insert(0, {"clause": "C03.deadlock", "detail": {"blocked": str(stuck)[:200]}, "owners": ["C03", "C05", "C12"]})
 		for v in viols:
 			if v["clause"] == "C03.thread-death":
 				v["owners"] = ["C03", "C05", "C12"]
+				if plan["config"].get("race2") or v["detail"].get("exc") == "Hang":
+					# this profile belongs to the checks of all properties of the virtual Um interface
+					v["owners"] = ["C02", "C03", "C05", "C10", "C12", "C18"]
 				v["signature"] = "thread-death/%s/%s" % (v["detail"]["exc"], v["detail"]["where"][-1] if v["detail"]["where"] else "?")
 		res.violations = viols
 		res.sim_ns = sim.now
